@@ -39,7 +39,8 @@ def tree(c):
         for v in vals:
             params = getattr(v, "params", None)
             enc = v.to_ical() if hasattr(v, "to_ical") else v
-            props.append((k, type(v).__name__, sorted(params.items()) if params else [], enc))
+            # the decoded text too: two different texts can have the same encoded form (backslash-N and LF)
+            props.append((k, type(v).__name__, sorted(params.items()) if params else [], enc, v if isinstance(v, str) else None))
     return (c.name, props, [tree(s) for s in c.subcomponents])
 
 
